@@ -275,6 +275,25 @@ pub fn execute(shared: Shared, mode: ExecMode, stack_budget: u64, nthreads: u64)
         let fc = fault_counter.clone();
         reqwest::sim::install(move |info: &RequestInfo| {
             let path = info.url.split('?').next().unwrap_or("");
+            if !info.follows_redirects {
+                // code file + code id lookup: answer with a redirect to the symbol file's path
+                for m in mods.iter().filter(|m| m.code_lookup) {
+                    let sm = breakpad_symbols::SimpleModule {
+                        code_file: Some(m.code_file.clone()),
+                        code_identifier: Some(debugid::CodeId::new(format!("{:08X}{:x}", 0x5EED_C0DEu32, m.size))),
+                        ..Default::default()
+                    };
+                    let Some(lp) = breakpad_symbols::code_info_breakpad_sym_lookup(&sm) else { continue };
+                    let enc = reqwest::Url::parse("http://x/").unwrap().join(&lp).map(|u| u.path()[1..].to_string()).unwrap_or_default();
+                    if path.ends_with(&enc) {
+                        probe("e4.code_id_redirect");
+                        let mut plan = Plan::redirect(302, &format!("/api/{}", m.rel.clone().unwrap_or_default()));
+                        plan.head_delay = draw_delay("e4.http.head_delay");
+                        return plan;
+                    }
+                }
+                return Plan::status(404);
+            }
             for m in mods.iter() {
                 let Some(rel) = &m.rel else { continue };
                 let enc = reqwest::Url::parse("http://x/").unwrap().join(rel).map(|u| u.path()[1..].to_string()).unwrap_or_default();
@@ -586,8 +605,9 @@ pub fn run_c13() -> Outcome {
     };
     let nexec = 3 + ch("c13.nexec", 4) as usize;
     let companions = ch("c13.companions", 3);
-    let stack_budget = world.total_stack_bytes;
-    let nthreads = world.threads.len() as u64;
+    // budgets from what the processor can actually use as a stack (any thread may be walked from
+    // the exception context, i.e. inside the largest region)
+    let (stack_budget, nthreads, _max_region) = measure(&world.dump, &world);
     let mut digests: Vec<u64> = Vec::new();
     let mut baseline: Option<ExecOut> = None;
     let option_name = ["stable_basic", "stable_all", "unstable_all"][shared.options as usize % 3];
@@ -925,7 +945,10 @@ pub fn run_c03() -> Outcome {
         simkit::ensure!(st == "ok" || st.starts_with("read-error") || st.starts_with("process-error"), "c03.status", "unexpected status {}", st);
         // 3. frame bound
         for (ti, &n) in out.frames.iter().enumerate() {
-            let bound = if storage { max_region + 2 } else { world.threads.get(ti).map(|t| region_bound(&world, t)).unwrap_or(max_region) + 2 };
+            // a thread named by the exception stream (or by the breakpad-info stream) may be walked
+            // from another context, whose stack pointer selects another region: use the largest
+            let may_use_other_context = world.threads.get(ti).map(|t| Some(t.id) == world.crashing_id || world.threads.iter().filter(|o| o.id == t.id).count() > 1).unwrap_or(true);
+            let bound = if storage || may_use_other_context || world.uses_breakpad_info { max_region + 2 } else { world.threads.get(ti).map(|t| region_bound(&world, t)).unwrap_or(max_region) + 2 };
             simkit::ensure!(n as u64 <= bound, "c03.frame_bound", "a thread was walked for more frames than its stack memory has bytes (plus two)");
         }
         // 4. memory budget
@@ -1014,7 +1037,8 @@ pub fn run_c12_pipeline() -> Outcome {
         warm_root: None,
     };
     let companions = ch("c12p.companions", 3);
-    let out = execute(shared, ExecMode { faults: false, companions, use_warm_cache: false, previous_job: 0 }, world.total_stack_bytes, world.threads.len() as u64);
+    let (stack_budget, nthreads, _max_region) = measure(&world.dump, &world);
+    let out = execute(shared, ExecMode { faults: false, companions, use_warm_cache: false, previous_job: 0 }, stack_budget, nthreads);
     probe("e2.pipeline");
     let info = json!({"scenario": "process_minidump (real join_all of real walkers) over the gated supplier", "world": world.describe, "companions": companions, "steps": out.steps, "supplier_calls": out.per_key.values().map(|v| v.0).sum::<u32>(), "distinct_modules_asked": out.per_key.len(), "pending": [out.pending.0, out.pending.1]});
     let result = (|| -> simkit::Check {
